@@ -1,4 +1,5 @@
 import PetgraphModel.Proofs.C13Vf2
+import PetgraphModel.Model.C13Vf2Side
 /-
 C13, wave 2 — counting facts about valid complete mappings (`Final`):
 
@@ -11,15 +12,8 @@ C13, wave 2 — counting facts about valid complete mappings (`Final`):
 namespace PetgraphModel.C13.Vf2
 open PetgraphModel
 
-/-- number of arcs stored: Σ_i |outN i| -/
-def CG.arcs (g : CG) : Nat := ((List.range g.n).map fun i => (g.outN i).length).sum
-/-- number of self-loops -/
-def CG.loops (g : CG) : Nat := ((List.range g.n).filter fun i => g.adj i i).length
-/-- the `edge_count()` field is the number of edges the neighbour lists describe: every arc once (directed);
-every non-loop edge is listed from both ends and every loop once (undirected) -/
-def ECountOk (g : CG) : Prop :=
-  if g.directed then g.ecount = g.arcs else 2 * g.ecount = g.arcs + g.loops
-instance (g : CG) : Decidable (ECountOk g) := by unfold ECountOk; exact inferInstance
+/- `CG.arcs`, `CG.loops`, `ECountOk` (and its `Decidable` instance) are defined in `Model/C13Vf2Side.lean`
+(core Lean only), because the driver evaluates them at run time. -/
 
 /-! ### generic list facts -/
 
